@@ -9,6 +9,7 @@ from ..core import AnalysisError, calls_in, call_name, dotted, unparse, walk_no_
 from ..match import kwarg
 from ..cfg import CFG
 from ..facts import assign_facts, show
+from ..match import canonical_statements
 from ..report import Ctx
 from .c08 import _event, scope_units
 
@@ -176,7 +177,7 @@ def r2_positional_binding(ctx: Ctx) -> None:
             bad = names is None or bool(names & {"Exception", "BaseException", "IndexError", "LookupError", "KeyError"})
             ctx.check(not bad, f"generate_macro_application:except {unparse(h.type)}", "a handler that catches IndexError/KeyError hides a missing argument or an undefined macro")
     g = ctx.repo.func(CODEGEN, "generate_macro")
-    ctx.check([unparse(s) for s in g.node.body] == ["macro_definitions[node.name] = node", "return []"], "generate_macro", "a definition is recorded under its name and emits nothing")
+    ctx.check(canonical_statements(g.node) == ["macro_definitions[node.name] = node", "return []"], "generate_macro", "a definition is recorded under its name and emits nothing")
 
 
 def r3_per_application_scope(ctx: Ctx) -> None:
@@ -191,7 +192,10 @@ def r3_per_application_scope(ctx: Ctx) -> None:
     cs = [c for c in calls_in(fn.node) if (call_name(c) or "") == "resolver.append_scope"]
     ctx.check(len(cs) == 1, "generate_macro_application:append_scope", "appends an anonymous scope")
     gen = [c for c in calls_in(fn.node) if call_name(c) == "_code_gen"]
-    ctx.check(len(gen) == 1 and unparse(gen[0].args[0]) in ("macro_code.body", "macro_def.block.body"), "generate_macro_application:expands-body", "expands the macro's own block once")
+    from ..match import canon as _cn9
+
+    ctx.check(len(gen) == 1 and _cn9(fn.node, gen[0].args[0]) == "macro_definitions[node.name].block.body", "generate_macro_application:expands-body",
+              "expands the macro's own block once")
     gl = ctx.repo.func(CODEGEN, "generate_code_lookup")
     v = [unparse(s.value) for s in gl.node.body if isinstance(s, ast.Assign)]
     ok = v == ["resolver.current_scope.value_for(node.symbol)"]
